@@ -419,6 +419,39 @@ def config_list_pass(rep, variant):
             variants.append(("positive-list-with-unknown-name-%s" % where, ",".join(lst), full & pos))
         variants.append(("negative-list-plain", "-" + ",".join(names), full - named))
         variants.append(("positive-list-plain", ",".join(pos_names), full & pos))
+        # the restriction in force is the one of the configuration read by THIS C_Initialize: one process initialises under configuration 1, finalises,
+        # the file is rewritten, and it initialises again (every ordered pair of ALL / negative / positive list)
+        def advertised_after_reload(conf1, conf2, tag):
+            sd = os.path.join(root, tag)
+            shutil.copytree(os.path.join(root, "base"), sd)
+            P.write_conf(sd, mechanisms=conf1)
+            sh = P.Shell(variant, sd)
+            try:
+                p = P.P11(sh)
+                W.ok(p.Initialize(), "init")
+                slot = p.GetSlotList(1, 8)["slots"][0]
+                p.GetMechanismList(slot, "q")
+                W.ok(p.Finalize(), "final")
+                P.write_conf(sd, mechanisms=conf2)
+                W.ok(p.Initialize(), "init")
+                slot = p.GetSlotList(1, 8)["slots"][0]
+                cnt = p.GetMechanismList(slot, "q")["n"]
+                return set(p.GetMechanismList(slot, cnt + 4)["mechs"])
+            finally:
+                sh.close()
+        cfg3 = [("all", "ALL", full), ("negative", "-" + ",".join(names), full - named), ("positive", ",".join(pos_names), full & pos)]
+        for t1, c1, _w1 in cfg3:
+            for t2, c2, w2 in cfg3:
+                if t1 == t2:
+                    continue
+                tag = "reload-%s-then-%s" % (t1, t2)
+                got = advertised_after_reload(c1, c2, tag)
+                n += 1
+                if got != w2:
+                    extra, missing = sorted(got - w2), sorted(w2 - got)
+                    rep.add_violation({"signature": "C07|config|%s|advertised-list-differs-from-the-configured-restriction|%s" % (tag, "mechanisms-not-removed" if extra else "mechanisms-missing"),
+                                       "detail": {"slots.mechanisms": c2, "first_configuration": c1, "advertised_but_excluded": [C.CKM_NAMES.get(x, hex(x)) for x in extra][:12], "allowed_but_missing": [C.CKM_NAMES.get(x, hex(x)) for x in missing][:12]},
+                                       "history": [], "action": None, "variant": variant, "store": "file", "replay_module": "c07_usage", "config_tag": tag, "property": "C07"})
         for tag, conf, want in variants:
             got = advertised(conf, tag)
             n += 1
